@@ -70,6 +70,9 @@ class FunctionNode(ConfigDict):
                 return self
 
             if other.ayns.delete:
+                # (what goes here has existed: a !notnew node that writes such a path again does not create it, see "removed" in
+                # ComposedNode.on_merge_impl)
+                self._dropped_paths = { path for path, _ in self.ayns.nodes_with_paths(prefix=prefix, include_self=False) }
                 self.clear()
             self._func = other._func
             # the target is now the one written by "other": this node is at most as safe as "other", also in the places which
@@ -77,7 +80,10 @@ class FunctionNode(ConfigDict):
             if not other.ayns.safe:
                 self._safe = False
 
-        return super().ayns.on_merge_impl(prefix, other)
+        try:
+            return super().ayns.on_merge_impl(prefix, other)
+        finally:
+            self.__dict__.pop('_dropped_paths', None)
 
     @namespace('ayns')
     def on_evaluate_impl(self, path, ctx):
